@@ -442,8 +442,12 @@ fn exec_ops_via_logger(dir: &Path, link: &Path, tok: &str, live: &mut Option<Liv
                 let c = parse_cfg(p[1]);
                 let b = builder(&c, dir, link);
                 let r = catch_unwind(AssertUnwindSafe(|| l.handle.reset_flw(&b)));
-                l.crlf = c.crlf;
-                format!("r{}", code(r))
+                // (a rejected reset leaves the configuration - and its line ending - in force)
+                let rc = code(r);
+                if rc == 0 {
+                    l.crlf = c.crlf;
+                }
+                format!("r{rc}")
             }
         },
         "H" => match live {
@@ -647,8 +651,12 @@ pub fn exec_ops(dir: &Path, link: &Path, t0: i64, ops: &[&str], drop_at_end: boo
                     let c = parse_cfg(p[1]);
                     let b = builder(&c, &dir, &link);
                     let r = catch_unwind(AssertUnwindSafe(|| l.arc.reset(&b)));
-                    l.crlf = c.crlf;
-                    format!("r{}", code(r))
+                    // (a rejected reset leaves the configuration - and its line ending - in force)
+                    let rc = code(r);
+                    if rc == 0 {
+                        l.crlf = c.crlf;
+                    }
+                    format!("r{rc}")
                 }
             },
             "H" => match &live {
